@@ -305,8 +305,13 @@ def gen_plan(seed: int, mode: str, scale: int = 1):
     state = {"cwd": "/w", "sid": 0}
     versions = {p.name: 0 for p in projects}
 
+    def keyable(p: Project) -> bool:
+        # an absolute import path names a file of the simulated world (/w/abs/...) that the
+        # real-file-system golden cannot have: such inputs are compiled but not compared
+        return not any('"/' in t for t in p.files.values())
+
     def key_for(p: Project, lang, opt, filt, endian, check=False):
-        if mode != "c18":
+        if mode != "c18" or not keyable(p):
             return None
         kid = h(p.content_hash(), p.main, lang, bool(opt), filt, endian, check)
         if kid not in keys:
@@ -393,7 +398,7 @@ def gen_plan(seed: int, mode: str, scale: int = 1):
                     held["nokey"] = True
             else:
                 op = {"op": "parse", "sid": sid, "path": path, "trad": trad}
-            if mode == "c18" and not held.get("nokey"):
+            if mode == "c18" and not held.get("nokey") and keyable(snap):
                 kid = "P" + h(snap.content_hash(), snap.main, trad)
                 if kid not in keys:
                     keys[kid] = {"api": "parse", "files": dict(snap.files), "extras": snap.extras, "main": snap.main, "trad": trad}
